@@ -720,6 +720,20 @@ V('v14.2', 'C14', 'F', 'C14.R2', 'comments stripped only from the first line of 
   (PARSER, 'split_equations_iter', "    for line in map(strip_comments, model.splitlines()):\n        buffer.append(line)\n",
    "    for line in model.splitlines():\n        if not buffer:\n            line = strip_comments(line)\n        buffer.append(line)\n"))
 V('v14.2b', 'C14', 'F', 'C14.R2', 'blank statements are yielded', (PARSER, 'split_equations_iter', "            if equation.strip():  # Skip pure whitespace", "            if True:"))
+V('v14.2c', 'C14', 'F', 'C14.R2', 'a line starting with # is returned whole (position <= 0 for == -1)',
+  (PARSER, 'split_equations_iter', "        if hash_position == -1:\n", "        if hash_position <= 0:\n"))
+V('v14.2d', 'C14', 'F', 'C14.R2', 'partition form that tests the comment text, not the separator',
+  (PARSER, 'split_equations_iter', "        hash_position = line.find('#')\n        if hash_position == -1:\n            return line\n\n        return line[:hash_position].rstrip()\n",
+   "        code, sep, comment = line.partition('#')\n        if not comment:\n            return line\n\n        return code.rstrip()\n"))
+V('v14.s2', 'C14', 'S', None, 'partition form that tests the separator',
+  (PARSER, 'split_equations_iter', "        hash_position = line.find('#')\n        if hash_position == -1:\n            return line\n\n        return line[:hash_position].rstrip()\n",
+   "        code, sep, comment = line.partition('#')\n        if not sep:\n            return line\n\n        return code.rstrip()\n"))
+V('v14.s3', 'C14', 'S', None, "membership test and split('#', 1)[0]",
+  (PARSER, 'split_equations_iter', "        hash_position = line.find('#')\n        if hash_position == -1:\n            return line\n\n        return line[:hash_position].rstrip()\n",
+   "        if '#' not in line:\n            return line\n\n        return line.split('#', 1)[0].rstrip()\n"))
+V('v14.s4', 'C14', 'S', None, 'position < 0 and unconditional prefix via partition()[0]',
+  (PARSER, 'split_equations_iter', "        if hash_position == -1:\n            return line\n\n        return line[:hash_position].rstrip()\n",
+   "        if hash_position < 0:\n            return line\n\n        return line.partition('#')[0].rstrip()\n"))
 V('v14.3', 'C14', 'F', 'C14.R3', r'no whitespace after {', (PARSER, '', r"(?: \{ \s* (?P<_PARAMETER>", r"(?: \{ (?P<_PARAMETER>"))
 V('v14.3b', 'C14', 'F', 'C14.R5', r'no whitespace before ] of an index', (PARSER, '', r"(?: \[ \s* (?P<INDEX> .*? ) \s* \] )?", r"(?: \[ \s* (?P<INDEX> .*? ) \] )?"))
 V('v14.4', 'C14', 'F', 'C14.R4', r'the \(\s+ pass is deleted', (PARSER, 'parse_equation', "    template = re.sub(r'\\(\\s+', '(', template)  # Remove space after opening brackets\n", ''))
